@@ -92,6 +92,10 @@ class LayoutMonitor(object):
 
     def _finish(self, rec):
         """Post-processing of a finished compute record (never raises into library code)."""
+        if not rec["layers"] and rec["exc"] is None:
+            # the layer solver was not reached through the hooked module function (inlined / renamed): fall back to
+            # the property's own observation boundary - the layering the engine reports and the node attributes
+            self._layers_from_boundary(rec)
         # cross-check: no layer moved after its own solve
         moved = []
         for li, L in enumerate(rec["layers"]):
@@ -127,6 +131,27 @@ class LayoutMonitor(object):
                     else:
                         rec["target_problems"].append({"layer": li, "rule": "item of a deeper layer has no stub in the layer below", "idealPos": node.idealPos})
             prev = L
+
+    def _layers_from_boundary(self, rec):
+        force = rec.get("force")
+        layers = None
+        try:
+            layers = force.getLayers()
+        except Exception:
+            pass
+        if not layers:
+            return
+        out = []
+        for L in layers:
+            nodes = sorted(L, key=lambda n: n.currentPos)
+            items = []
+            for n in nodes:
+                par = getattr(n, "parent", None)
+                items.append({"t": (par.currentPos if par is not None else n.idealPos), "w": n.width, "stub": bool(getattr(n, "child", None)), "pos": n.currentPos})
+            # equal positions: keep target order among them (the order of coincident items is not observable)
+            out.append({"items": items, "nodes": nodes, "options_passed": None, "source": "boundary"})
+        rec["layers"] = out
+        self.events["layers_from_boundary"] += len(out)
 
     def drain(self):
         c, self.computes = self.computes, []
